@@ -116,7 +116,9 @@ fn set_items_on(rng: &mut Rng, x: u32, node: bool) -> Vec<SetItem> {
 }
 
 fn match_node(rng: &mut Rng, x: u32) -> Vec<Cl> {
-    let l = vec![rng.below(NL as u64) as u32];
+    let l0 = rng.below(NL as u64) as u32;
+    // every fifth MATCH names two labels (either written order)
+    let l = if rng.chance(1, 5) { vec![l0, (l0 + 1 + rng.below(2) as u32) % NL] } else { vec![l0] };
     match rng.below(4) {
         0 => vec![Cl::MatchN(x, l, vec![(rng.below(NK as u64) as u32, int(rng.range(0, 3)))])],
         1 => vec![Cl::MatchN(x, l, vec![]), Cl::Filter(bin(*rng.pick(&["eq", "gt", "le"]), Ex::Prop(x, rng.below(NK as u64) as u32), int(rng.range(0, 2))))],
@@ -378,7 +380,8 @@ fn gen_label_stmt(rng: &mut Rng, pre: &DumpG) -> St {
     match rng.below(12) {
         // MERGE of a multi-label node pattern, row-less or UNWIND-driven, ON CREATE / ON MATCH
         0 | 1 | 2 | 3 => {
-            let ls = label_subset(rng, if rng.chance(1, 6) { 1 } else { 2 });
+            let min = if rng.chance(1, 6) { 1 } else { 2 };
+            let ls = label_subset(rng, min);
             let unwind = rng.chance(1, 3);
             let ids: Vec<i64> = if unwind { (0..rng.range(1, 3)).map(|_| *rng.pick(&IDS)).collect() } else { vec![id] };
             let risky = ids.iter().any(|i| count_matches(pre, &ls, *i) >= 2);
@@ -447,7 +450,8 @@ fn gen_label_stmt(rng: &mut Rng, pre: &DumpG) -> St {
         }
         // MERGE of a relationship pattern between multi-label nodes (whole pattern or nothing)
         _ => {
-            let a = NPat { var: Some(1), labels: label_subset(rng, if rng.chance(1, 4) { 1 } else { 2 }), props: vec![(0, int(id))] };
+            let min = if rng.chance(1, 4) { 1 } else { 2 };
+            let a = NPat { var: Some(1), labels: label_subset(rng, min), props: vec![(0, int(id))] };
             let b = NPat { var: Some(2), labels: label_subset(rng, 1), props: vec![(0, int(*rng.pick(&IDS)))] };
             St { cls: vec![Cl::MergeRel(a, rng.below(NT as u64) as u32, b)], ret: None }
         }
@@ -616,9 +620,10 @@ fn main() {
     // corpus signatures: from the comment-free term shape is not available; classify by text
     for f in flat.iter_mut() {
         let t = &f.text;
-        f.sig = if t.matches(" SET ").count() >= 2 {
+        let bare_sets = t.replace("ON CREATE SET ", "").replace("ON MATCH SET ", "").matches(" SET ").count();
+        f.sig = if bare_sets >= 2 {
             "set-after-set-reads-stale".into()
-        } else if t.contains("MERGE") && t.contains(" SET ") && !t.contains("ON ") && (t.starts_with("UNWIND") || t.starts_with("MATCH")) {
+        } else if t.contains("MERGE") && bare_sets >= 1 && (t.starts_with("UNWIND") || t.starts_with("MATCH")) {
             "merge-with-input-then-set-dropped".into()
         } else if t.starts_with("MERGE (v1 {") {
             "merge-unlabelled-never-matches".into()
